@@ -86,7 +86,7 @@ class AffineTransformation(object):
         klass, factor_x: float, factor_y: Optional[float] = None
     ) -> "AffineTransformation":
         """Create a transformation that scales by the given factor(s)."""
-        if not factor_y:
+        if factor_y is None:
             factor_y = factor_x
         return klass([[factor_x, 0, 0], [0, factor_y, 0], [0, 0, 1]])
 
